@@ -48,8 +48,14 @@ def r1_member(ck, w):
     # HIR: summary is squeezed from the member transcript and absorbed into the *other* transcript
     f = w.fn(BV)
     clos = [n for n in walk(f['body']) if n.get('k') == 'closure' and norm(n['id']) == CL]
+    helper = None
     if not clos:
-        raise AnchorMissing('batch_verify member closure')
+        # the member body may live in a NEW helper function (see World.closure_calling): the shared transcript is then a `&mut` parameter
+        helper = w.fn(CL, required=False)
+        if helper is None or CL.startswith(BV + '::{closure'):
+            raise AnchorMissing('batch_verify member closure')
+        clos = [dict(body=helper['body'], caps=[dict(v=p_['n'], by='mut' if str(p_.get('t', '')).startswith('&mut') else 'ref')
+                                                 for p_ in helper.get('params', []) if p_.get('k') == 'bind'])]
     c = clos[0]
     sq_recv, cm_recv, cm_arg = None, None, set()
     summary_locals = set()
@@ -70,7 +76,7 @@ def r1_member(ck, w):
               and bool(summary_locals & cm_arg) and caps.get(cm_recv) == 'mut' and sq_recv not in caps,
               f'summary squeezed from per-member `{sq_recv}` and absorbed into shared `{cm_recv}`',
               f'batch_verify: summary challenge flow broken (squeezed from `{sq_recv}`, absorbed into `{cm_recv}`, '
-              f'absorbed-locals∩summary={bool(summary_locals & cm_arg)})', hirq.fn_loc(f, c))
+              f'absorbed-locals∩summary={bool(summary_locals & cm_arg)})', hirq.fn_loc(helper or f, c if helper is None else None))
 
 
 def r2_fold(ck, w):
